@@ -11,10 +11,12 @@ ALL = "ORESFUDGBNKMJ"
 
 PROPS = {
     "C01": {
-        "theorems": ["MRL.C01J.C01_journal", "MRL.C01J.C01_journal_run", "MRL.C01J.reach_structure", "MRL.suffix_lemma",
+        "theorems": ["MRL.C01R.C01_restart_exact", "MRL.C01R.C01_no_resurrection", "MRL.C01R.C01_no_loss", "MRL.C01R.C01_obs",
+                     "MRL.C01R.C01_files_kept", "MRL.C01R.reach_rinv", "MRL.C01R.init_ok", "MRL.C01R.reopen_ok",
+                     "MRL.C01J.C01_journal", "MRL.C01J.C01_journal_run", "MRL.C01J.reach_structure", "MRL.suffix_lemma",
                      "MRL.C07.C07_roundtrip", "MRL.C07.decode_encode", "MRL.C05.C05_history"],
         "examples": 4,
-        "modules": ["MRL.Props.C01", "MRL.Props.C01Journal"],
+        "modules": ["MRL.Props.C01", "MRL.Props.C01Journal", "MRL.Props.C01Restart"],
         "kinds": "OSDFJ",
         "campaigns": {"quick": [("ops", 24, 110), ("ops-journal", 8, 60)],
                       "thorough": [("ops", 300, 220), ("policy-ops", 150, 200), ("ops-journal", 64, 90), ("names", 60, 120)]},
@@ -25,9 +27,10 @@ PROPS = {
         "assumptions": ["OS file semantics and std::io::BufWriter are modelled (DESIGN §8)"],
     },
     "C02": {
-        "theorems": [],
-        "examples": 0,
-        "level": "fault_enumeration",
+        "theorems": ["MRL.C02.C02_torn_tail", "MRL.C02.C02_resume", "MRL.C02.C02_crash", "MRL.C02.resume_nonvacuous",
+                     "MRL.C03.unlink_after_sync", "MRL.C03.flush_then_unlink_image", "MRL.C01R.C01_restart_exact"],
+        "examples": 4,
+        "modules": ["MRL.Props.C02", "MRL.Props.C03", "MRL.Props.C01Restart"],
         "kinds": "ODSFRE",
         "campaigns": {"quick": [("crash", 20, 60)], "thorough": [("crash", 200, 120), ("crash-policies", 100, 100)]},
         "rule": "histories under a flush-per-operation policy; the effect trace is turned into OS-level operations through the BufWriter model; "
@@ -42,8 +45,9 @@ PROPS = {
         "theorems": ["MRL.C03.unlink_after_sync", "MRL.C03.unlink_after_sync_open", "MRL.C03.unlink_after_sync_split",
                      "MRL.C03.create_synced", "MRL.C03.delete_synced", "MRL.C03.persist_flush", "MRL.C03.persist_flushAndFsync",
                      "MRL.C03.always_persists", "MRL.C03.onDelay_persists", "MRL.C03.buffer_empty_of_flushedAtEnd",
-                     "MRL.C03.flush_then_unlink", "MRL.C03.flush_then_unlink_image"],
+                     "MRL.C03.flush_then_unlink", "MRL.C03.flush_then_unlink_image", "MRL.C02.C02_torn_tail", "MRL.C02.C02_resume"],
         "examples": 4,
+        "modules": ["MRL.Props.C03", "MRL.Props.C02"],
         "kinds": "ODSFRE",
         "campaigns": {"quick": [("crash-policies", 20, 60)], "thorough": [("crash-policies", 240, 120)]},
         "rule": "as C02 under all seven policies (DoNothing, OnDelay never/always due x Flush/FlushAndFsync, Always x 2) with explicit persist "
@@ -65,8 +69,11 @@ PROPS = {
     },
     "C05": {
         "theorems": ["MRL.C05.C05_refines", "MRL.C05.C05_history", "MRL.C05.C05_history_pointwise", "MRL.C05.range_eq_filter",
-                     "MRL.C05.lastPosition_eq", "MRL.C05.lastRecord_eq", "MRL.C05.get_abs", "MRL.C05.Inv_empty"],
-        "examples": 1,
+                     "MRL.C05.lastPosition_eq", "MRL.C05.lastRecord_eq", "MRL.C05.get_abs", "MRL.C05.Inv_empty",
+                     "MRL.C05I.getRange_split", "MRL.C05I.absI_appendRecordI", "MRL.C05I.absI_truncateHeadI", "MRL.C05I.rangeI_eq",
+                     "MRL.C05I.lastRecordI_eq", "MRL.C05I.repInv_appendRecordI", "MRL.C05I.repInv_truncateHeadI", "MRL.C05I.sizeI_eq"],
+        "examples": 6,
+        "modules": ["MRL.Props.C05", "MRL.Props.C05Impl"],
         "kinds": "RSG",
         "campaigns": {"quick": [("ops", 24, 110), ("edge", 4, 0)], "thorough": [("ops", 300, 220), ("policy-ops", 100, 200), ("edge", 32, 0)]},
         "rule": "ops campaign: every call outcome, the full observable state after every call and every range result (all 9 bound shapes drawn "
@@ -110,9 +117,10 @@ PROPS = {
         "assumptions": ["no CRC-32 collision; damage that copies valid WAL content is finding F5"],
     },
     "C09": {
-        "theorems": [],
-        "examples": 0,
-        "level": "fault_enumeration",
+        "theorems": ["MRL.C09.C09_one_frame", "MRL.C09.damaged_buffers", "MRL.C09.undamaged", "MRL.C09.framesOf_is_layout",
+                     "MRL.C12.assemble_whole_entry"],
+        "examples": 2,
+        "modules": ["MRL.Props.C09", "MRL.Props.C12"],
         "kinds": "ODS",
         "campaigns": {"quick": [("damage-aimed", 16, 70)], "thorough": [("damage-aimed", 240, 120)]},
         "rule": "aimed damage: a traced frame still on disk, alteration (bit flip / garbage / inverted byte) confined to its checksum or payload "
@@ -121,9 +129,12 @@ PROPS = {
         "assumptions": ["the altered frame fails its CRC (no collision)"],
     },
     "C10": {
-        "theorems": [],
-        "examples": 0,
-        "level": "fault_enumeration",
+        "theorems": ["MRL.C10.recoverP_agrees", "MRL.C10.replay_no_panic", "MRL.C10.runGc_no_panic", "MRL.C10.recover_no_panic",
+                     "MRL.C10.recover_no_panic_img", "MRL.C10.recover_buf_bounded", "MRL.C10.replayP_total",
+                     "MRL.C10.truncate_max_panics", "MRL.C10.append_max_poisons", "MRL.C10.noMaxFiles_insufficient",
+                     "MRL.C11.ioCalls_bounded", "MRL.C08.recover_sorted"],
+        "examples": 2,
+        "modules": ["MRL.Props.C10", "MRL.Props.C11", "MRL.Props.C08"],
         "kinds": "ODSNK",
         "campaigns": {"quick": [("damage", 12, 70), ("bytes", 16, 120), ("edge", 4, 0)],
                       "thorough": [("damage", 200, 120), ("bytes", 300, 300), ("names", 60, 100), ("edge", 32, 0)]},
